@@ -10,7 +10,10 @@ Open Scope Z_scope.
 Inductive case :=
 | Case (mode : Z) (p : prog) (obs_log : list val) (obs_outcome : outcome) (routes_agree : bool)
 (* MiniJS+ (C01/Full.v): the reference semantics is the model; global code only *)
-| FCase (p : list Full.stmt) (obs_log : list Full.val) (obs_outcome : Full.outcome) (obs_cv : Full.val) (routes_agree : bool).
+| FCase (p : list Full.stmt) (obs_log : list Full.val) (obs_outcome : Full.outcome) (obs_cv : Full.val) (routes_agree : bool)
+(* pinned probes outside the modelled languages: `delete` applied to an identifier.
+   obs = [result of delete (1 true / 0 false); typeof the name afterwards (0 undefined, 1 number, 2 function)] *)
+| PinCase (id : Z) (obs : list Z).
 
 Definition fval_eqb (a b : Full.val) : bool :=
   match a, b with
@@ -33,6 +36,19 @@ Definition fobs_eqb (a b : list Full.val * Full.outcome * Full.val) : bool :=
 Definition fhas_big (l : list Full.val) (o : Full.outcome) : bool :=
   existsb (fun v => fval_eqb v WBig) l || match o with FThrew v => fval_eqb v WBig | _ => false end.
 Definition ffuel : nat := 700.
+
+(* ES5 10.4.2 + 10.5: bindings created by eval code are deletable (configurableBindings = true), those of
+   global/function code are not; 11.4.1: delete of a deletable binding returns true and removes it.
+   ids: 1 eval var (global code)  2 eval var (in a function)  3 eval function (global)  4 plain var
+        5 implicit global (assignment to an undeclared name)  6 eval function (in a function)  7 indirect eval var *)
+Definition pin_spec (id : Z) : list Z :=
+  if (id =? 4) then [0; 1] else if (1 <=? id) && (id <=? 7) then [1; 0] else [].
+(* otto: every declaration goes through the same createBinding(name, deletable = false) / global property with
+   configurable = false, whatever code declares it (cmplVariableDeclaration, cmplFunctionDeclaration) *)
+Definition pin_model (id : Z) : list Z :=
+  if (id =? 5) then [1; 0]
+  else if (id =? 3) || (id =? 6) then [0; 2]
+  else if (1 <=? id) && (id <=? 7) then [0; 1] else [].
 
 Definition val_eqb (a b : val) : bool :=
   match a, b with
@@ -93,6 +109,7 @@ Definition verdict (c : case) : Z * Z :=
         judge obs_eqb (lg, oc) (out so, project mode oo) (out ss, project mode os)
               (if wf (SBlock p) then 0 else 1)
       end
+  | PinCase id obs => judge (list_eqb Z.eqb) obs (pin_model id) (pin_spec id) 3
   | FCase p lg oc cv agree =>
       let '(ml, mo, mcv) := Full.run_program_cv ffuel p in
       match mo with
